@@ -1,6 +1,7 @@
 import P2sh.Model.Ops
 import P2sh.Proofs.IntLemmas
 import P2sh.Core.Prog
+import P2sh.Core.Match
 /-!
 # C05 — match ranges: `a..b` excludes `b`, `a..=b` includes it
 
@@ -104,5 +105,143 @@ theorem while_compiled (fuel : Nat) (c : CExpr) (body : List CStmt) (C : List In
     (he : evalS fuel g (.whileS c body) = some g') :
     Steps C K ⟨pos, stk, g⟩ ⟨pos + bytes (compileS pos k (.whileS c body)), stk, g'⟩ :=
   compileS_correct fuel _ C K pos k stk g g' h hp he
+
+/-! ### `match` (core fragment)
+
+`Core.eval` of `match s { arms }` evaluates `s` once and hands its value to `Core.evalArms`,
+which tests the arms in order (`Core.patTest`: the VM's `NotEqual` for a literal pattern, the
+two comparisons `rangeTest` for a range) and evaluates the body of the first arm that matches;
+the last arm is always the default arm (`_ => e` of the user, `_ => null` appended by the
+parser).  The theorems below say what the *compiled* match does. -/
+
+open P2sh.Core
+
+/-- a range pattern on integers is `rangeTest`, hence interval membership (`range_excl`, `range_incl`) -/
+theorem patTest_range_int (incl : Bool) (v lo hi : Int64) :
+    patTest (.int v) (.range incl (.int lo) (.int hi)) = some (rangeTest incl (.int v) (.int lo) (.int hi)) := by
+  cases incl <;>
+    simp [patTest, execOperator, binaryOp, isNumKind, applyBin, rangeTest, Val.isFalsey] <;>
+    cases (Val.int v).ge (Val.int lo) <;> simp
+
+/-- `a..b` as a pattern: matches exactly the integers `a ≤ v < b` -/
+theorem pattern_range_excl (v lo hi : Int64) :
+    patTest (.int v) (.range false (.int lo) (.int hi)) = some (decide (lo.toInt ≤ v.toInt ∧ v.toInt < hi.toInt)) := by
+  rw [patTest_range_int, range_excl]
+
+/-- `a..=b` as a pattern: matches exactly the integers `a ≤ v ≤ b` -/
+theorem pattern_range_incl (v lo hi : Int64) :
+    patTest (.int v) (.range true (.int lo) (.int hi)) = some (decide (lo.toInt ≤ v.toInt ∧ v.toInt ≤ hi.toInt)) := by
+  rw [patTest_range_int, range_incl]
+
+/-- a literal pattern matches exactly the value that is `==` to it (the VM's equality) -/
+theorem pattern_lit (v p : Val) : patTest v (.lit p) = some (v.eq p) := by
+  simp [patTest, execOperator, Val.isFalsey]
+
+theorem pattern_bool (v : Val) (b : Bool) : patTest v (.bool b) = some (v.eq (.bool b)) := by
+  simp [patTest, execOperator, Val.isFalsey]
+
+/-- **the first matching arm, and only it.**  The match is compiled anywhere (`codeAt`); the
+scrutinee evaluates to `v` leaving the globals `g1`; `selectArm` names the first arm one of whose
+patterns matches `v` (else the default arm): its body `b`, whose code sits at byte `pb`.  Then
+* the reference value of the match is the value of `b` in the globals the scrutinee left —
+  the scrutinee is evaluated once, no other arm's body is evaluated;
+* the machine goes from the start of the match to the first byte of `b`'s code with the stack it
+  started with (the scrutinee and all its copies popped) and the globals `g1` (nothing but the
+  scrutinee has run);
+* `b`'s code is what sits there, and once it has pushed its value the machine reaches the end of
+  the match with that value on the stack. -/
+theorem match_first_arm (s : CExpr) (arms : CArms) (C : List Instr) (K : List Val) (pos k : Nat) (stk g : List Val)
+    (v : Val) (g1 : List Val) (pb kb : Nat) (b : CExpr)
+    (h : codeAt C pos (compile pos k (.matchE s arms))) (hp : poolAt K k (consts (.matchE s arms)))
+    (hs : eval g s = some (v, g1))
+    (hsel : selectArm (pos + bytes (compile pos k s)) (k + (consts s).length) v arms = some (pb, kb, b)) :
+    eval g (.matchE s arms) = eval g1 b ∧
+    codeAt C pb (compile pb kb b) ∧ poolAt K kb (consts b) ∧
+    Steps C K ⟨pos, stk, g⟩ ⟨pb, stk, g1⟩ ∧
+    ∀ (r : Val) (g' : List Val), eval g1 b = some (r, g') →
+      Steps C K ⟨pb, stk, g1⟩ ⟨pos + bytes (compile pos k (.matchE s arms)), r :: stk, g'⟩ := by
+  simp only [compile] at h ⊢
+  simp only [consts] at hp
+  have s1 := compile_correct s C K pos k stk g v g1 (codeAt_left h) (poolAt_left hp) hs
+  obtain ⟨c1, c2, c3, c4⟩ := select_steps v arms C K _ _ pb kb b stk g1 (codeAt_right h) (poolAt_right hp) hsel
+  refine ⟨?_, c1, c2, s1.trans c3, fun r g' hb => ?_⟩
+  · simp only [eval, hs]
+    rw [evalArms_select g1 v arms (pos + bytes (compile pos k s)) (k + (consts s).length), hsel]
+  · have s2 := compile_correct b C K pb kb stk g1 r g' c1 c2 hb
+    exact (s2.trans (c4 _ _)).to (by simp [bytes_append]; omega)
+
+/-- no arm before the default arm matches `v` -/
+def noArmMatches (v : Val) : CArms → Prop
+  | .last _ => True
+  | .cons pats _ rest => patsTest v pats = some false ∧ noArmMatches v rest
+
+/-- the body of the default arm -/
+def defaultOf : CArms → CExpr
+  | .last d => d
+  | .cons _ _ rest => defaultOf rest
+
+theorem evalArms_none_match (g : List Val) (v : Val) : ∀ arms : CArms, noArmMatches v arms →
+    evalArms g v arms = eval g (defaultOf arms) := by
+  intro arms
+  induction arms using CArms.ind with
+  | last d => intro _; simp [evalArms, defaultOf]
+  | cons pats body rest ih =>
+    intro hn
+    simp only [noArmMatches] at hn
+    simp [evalArms, defaultOf, hn.1, ih hn.2]
+
+/-- **null when no arm matches**: a match without a `_` arm of its own (the parser appends
+`_ => null`) whose patterns all fail to match yields null — on the compiled code as well, with
+the scrutinee popped and the globals the scrutinee left -/
+theorem match_none_is_null (s : CExpr) (arms : CArms) (C : List Instr) (K : List Val) (pos k : Nat) (stk g : List Val)
+    (v : Val) (g1 : List Val)
+    (h : codeAt C pos (compile pos k (.matchE s arms))) (hp : poolAt K k (consts (.matchE s arms)))
+    (hs : eval g s = some (v, g1)) (hn : noArmMatches v arms) (hd : defaultOf arms = .null) :
+    eval g (.matchE s arms) = some (.null, g1) ∧
+    Steps C K ⟨pos, stk, g⟩ ⟨pos + bytes (compile pos k (.matchE s arms)), .null :: stk, g1⟩ := by
+  have he : eval g (.matchE s arms) = some (.null, g1) := by
+    simp only [eval, hs]
+    rw [evalArms_none_match g1 v arms hn, hd]
+    simp [eval]
+  exact ⟨he, compile_correct _ C K pos k stk g .null g1 h hp he⟩
+
+/-- the compiled match reproduces the reference evaluation (instance of `Core.compile_correct`) -/
+theorem match_compiled (s : CExpr) (arms : CArms) (C : List Instr) (K : List Val) (pos k : Nat) (stk g : List Val)
+    (r : Val) (g' : List Val)
+    (h : codeAt C pos (compile pos k (.matchE s arms))) (hp : poolAt K k (consts (.matchE s arms)))
+    (he : eval g (.matchE s arms) = some (r, g')) :
+    Steps C K ⟨pos, stk, g⟩ ⟨pos + bytes (compile pos k (.matchE s arms)), r :: stk, g'⟩ :=
+  compile_correct _ C K pos k stk g r g' h hp he
+
+/-! non-vacuity: `match x = x + 1 { 1 | 2 => 10, 3..6 => 20, 6..=9 => 30, _ => 40 }` with `x = 5`:
+the scrutinee is evaluated once (`x` ends as 6), 6 is outside `3..6`, inside `6..=9` -/
+def exArms : CArms :=
+  .cons [.lit (.int 1), .lit (.int 2)] (.lit (.int 10))
+    (.cons [.range false (.int 3) (.int 6)] (.lit (.int 20))
+      (.cons [.range true (.int 6) (.int 9)] (.lit (.int 30)) (.last (.lit (.int 40)))))
+def exScrut : CExpr := .gset 0 (.bin .add (.gget 0) (.lit (.int 1)))
+def exMatch : CExpr := .matchE exScrut exArms
+
+example : eval [.int 5] exMatch = some (.int 30, [.int 6]) := by rfl
+example : eval [.int 2] exMatch = some (.int 20, [.int 3]) := by rfl
+example : eval [.int 1] exMatch = some (.int 10, [.int 2]) := by rfl
+example : eval [.int 9] exMatch = some (.int 40, [.int 10]) := by rfl
+/-- the selected arm for 6: the third, whose body sits at byte 82 (constant index 9) -/
+example : selectArm (0 + bytes (compile 0 0 exScrut)) (0 + (consts exScrut).length) (.int 6) exArms
+    = some (82, 9, .lit (.int 30)) := by rfl
+example : Steps (compile 0 0 exMatch) (consts exMatch) ⟨0, [], [.int 5]⟩ ⟨82, [], [.int 6]⟩ :=
+  (match_first_arm exScrut exArms (compile 0 0 exMatch) (consts exMatch) 0 0 [] [.int 5] (.int 6) [.int 6] 82 9 (.lit (.int 30))
+    ⟨[], [], by simp [exMatch], rfl⟩ ⟨[], [], by simp [exMatch], rfl⟩ (by rfl) (by rfl)).2.2.2.1
+/-- `match 7 { 1 => 2 }` (the parser's arms: `1 => 2, _ => null`) is null -/
+example : eval [] (.matchE (.lit (.int 7)) (.cons [.lit (.int 1)] (.lit (.int 2)) (.last .null))) = some (.null, []) :=
+  (match_none_is_null (.lit (.int 7)) (.cons [.lit (.int 1)] (.lit (.int 2)) (.last .null))
+    (compile 0 0 (.matchE (.lit (.int 7)) (.cons [.lit (.int 1)] (.lit (.int 2)) (.last .null))))
+    (consts (.matchE (.lit (.int 7)) (.cons [.lit (.int 1)] (.lit (.int 2)) (.last .null)))) 0 0 [] [] (.int 7) []
+    ⟨[], [], by simp, rfl⟩ ⟨[], [], by simp, rfl⟩ (by rfl) ⟨by rfl, trivial⟩ rfl).1
+example : patTest (.int 6) (.range false (.int 3) (.int 6)) = some false ∧
+    patTest (.int 6) (.range true (.int 3) (.int 6)) = some true ∧
+    patTest (.int 3) (.range false (.int 3) (.int 6)) = some true := ⟨by rfl, by rfl, by rfl⟩
+/-- a range against a scrutinee of another kind is a runtime error of the comparison -/
+example : patTest (.str "a") (.range false (.int 3) (.int 6)) = none := by rfl
 
 end P2sh.Props.C05
